@@ -100,7 +100,10 @@ func (vm *VM) errIndexOutOfRange() runtimeError {
 	default:
 		panic("unexpected operation")
 	}
-	s := "runtime error: index out of range [" + strconv.Itoa(index) + "] with length " + strconv.Itoa(length)
+	s := "runtime error: index out of range [" + strconv.Itoa(index) + "]"
+	if index >= 0 {
+		s += " with length " + strconv.Itoa(length)
+	}
 	return runtimeError(s)
 }
 
